@@ -5,7 +5,7 @@ S="$1"
 cd "$S" || exit 1
 git status --short | while read st f; do
   case "$f" in
-    evidence/*|MANIFEST.json|lean/WfModel/Generated*|work/*|replays/*|harness/Cargo.toml|harness/Cargo.lock|known_findings.jsonl) continue;;
+    evidence/*|seeded/*|MANIFEST.json|lean/WfModel/Generated*|work/*|replays/*|harness/Cargo.toml|harness/Cargo.lock|known_findings.jsonl) continue;;
   esac
   if [ "$st" = "??" ]; then
     if [ -d "$S/$f" ]; then mkdir -p "/verif/$f"; cp -r "$S/$f"* "/verif/$f" 2>/dev/null || cp -r "$S/$f"/. "/verif/$f"; else mkdir -p "/verif/$(dirname "$f")"; cp "$S/$f" "/verif/$f"; fi
